@@ -429,10 +429,10 @@ DRIVE = {
                       hand=RUNHAND, extra={"certlen": [64, 600]}),
     "bakeBMQVRunB": D({"certlen": 69}, 1, auth=["ERR_ANY"], tamper=["msg1", "msg2", "msg1kca"],
                       hand=RUNHAND, extra={"certlen": [64, 600]}),
-    "bakeBSTSRunA": D({"certlen": 69}, 1, auth=["ERR_ANY"],
-                      tamper=["msg1", "msg2", "msgcert", "short"], hand=RUNHAND + CERTHAND, extra={"certlen": [64, 600, 1100]}),
-    "bakeBSTSRunB": D({"certlen": 69}, 1, auth=["ERR_ANY"],
-                      tamper=["msg1", "msg2", "msgcert", "short"], hand=RUNHAND + CERTHAND, extra={"certlen": [64, 600, 1100]}),
+    "bakeBSTSRunA": D({"certlen": 69, "chunk": 0}, 1, auth=["ERR_ANY"],
+                      tamper=["msg1", "msg2", "msgcert", "short"], hand=RUNHAND + CERTHAND, extra={"certlen": [64, 600, 1100], "chunk": [100, 200]}),
+    "bakeBSTSRunB": D({"certlen": 69, "chunk": 0}, 1, auth=["ERR_ANY"],
+                      tamper=["msg1", "msg2", "msgcert", "short"], hand=RUNHAND + CERTHAND, extra={"certlen": [64, 600, 1100], "chunk": [100, 200]}),
     "btokBAuthTStep5": D({"certlen": 72}, 1, auth=["ERR_ANY"], tamper=["msg"], hand=CERTHAND, extra={"certlen": [64, 600]}),
     "bakeBPACERunA": D({"pwd_len": 4}, 1, auth=["ERR_ANY"], tamper=["msg1", "msg2", "pwd", "pwdkcb", "msg1kcb"], hand=RUNHAND, extra={"pwd_len": [0, 1, 8]}),
     "bakeBPACERunB": D({"pwd_len": 4}, 1, auth=["ERR_ANY"], tamper=["msg1", "msg2", "pwd", "pwdkca", "msg1kca"], hand=RUNHAND, extra={"pwd_len": [0, 1, 8]}),
